@@ -34,6 +34,17 @@ func init() {
 func runC01(c *eng.Ctx) {
 	c01Planner(c, "R1", "R2", "R6")
 
+	// R10 (shared with C06.R6): nobody but reconcile and the handlers emits.
+	if rec := c.MustFunc("R10", corePkg, "reconciler.reconcile"); rec != nil {
+		var handlers []*ssa.Function
+		for _, h := range reconcileHandlers {
+			if fn := c.MustFunc("R10", corePkg, h); fn != nil {
+				handlers = append(handlers, fn)
+			}
+		}
+		c06WhoMayEmit(c, "R10", rec, handlers)
+	}
+
 	// R3: dispatch.
 	if rec := c.MustFunc("R3", corePkg, "reconciler.reconcile"); rec != nil {
 		c01Dispatch(c, rec, "R3", map[string]string{
